@@ -20,6 +20,11 @@ func Run(prop, tier string, c *core.Choices, trace bool) *harness.RunResult {
 	s.W = w
 	if trace {
 		s.Logf("config: %s", w.cfg.Summary)
+		for _, f := range w.cfg.Files {
+			if strings.Contains(f.Path, "evil") || strings.Contains(f.Path, "98-dir") {
+				s.Logf("hostile conf-dir file %s: %s", f.Path, f.Data)
+			}
+		}
 		for _, p := range w.cfg.Pods {
 			s.Logf("pod %s ann=%v eni=%v ports=%v expect=%v fail=%v", p.key(), p.Annotations, p.WantENI, p.Ports, p.Expect, p.ExpectFail)
 		}
@@ -67,6 +72,8 @@ func Run(prop, tier string, c *core.Choices, trace bool) *harness.RunResult {
 	switch prop {
 	case "C14":
 		res.Nontrivial = res.Stats["probe.portmapping-setup"] > 0
+	case "C19":
+		res.Nontrivial = reqs > 0 && contested > 0
 	case "C17":
 		res.Nontrivial = res.Stats["probe.gc-removal"] > 0 || res.Stats["fault.runtime.err"]+res.Stats["fault.runtime.down.inspect"] > 0
 	}
